@@ -24,6 +24,10 @@ var stubCfgs = []clientCfg{
 		{Name: "beta", Serial: 303986753, Addr: "192.168.1.101:60001", Proto: "", TZ: "America/New_York", NDoors: 1}, {Name: "gamma", Serial: 201020304, Addr: "192.168.1.102:60000", Proto: "TCP", NDoors: 5}}},
 }
 
+// the operations whose reply carries a VALUE at offset 8 (in all the others that byte is the "succeeded" flag)
+var valueAt8 = map[string]bool{"GetDevices": true, "GetDevice": true, "GetListener": true, "GetTime": true, "SetTime": true, "GetStatus": true, "GetCards": true, "GetCardByIndex": true, "GetCardByID": true,
+	"GetTimeProfile": true, "GetEvent": true, "GetEventIndex": true, "GetDoorControlState": true, "SetDoorControlState": true}
+
 func argKey(cs callSpec) string {
 	b, _ := json.Marshal(cs.args)
 	return cs.op + string(b)
@@ -161,6 +165,93 @@ func runApiCalls(o *opts, inDomain bool) (*summary, error) {
 			cs := g.call(ops[i%len(ops)], pick(g.serial()))
 			g.dates = nil
 			emit(doCall(u, d, cs), cs, "date-history")
+		}
+	}
+
+	// (7) ANSWERED histories (needs the reply layouts): the stub transport of the passes above always times out, so whatever a
+	// call remembers about an exchange that SUCCEEDED never comes into play there. Per operation, on one client: the call
+	// answered by a well-formed reply (success where the reply says so), the identical call again, another operation, the
+	// identical call a third time, the identical call on a second client instance of the same process, and a setter fed with
+	// the very value a getter has just reported (event index). Every one of them must put its one request on the wire.
+	if x := o.extraArg("layouts"); x != "" {
+		lt, err := loadLayouts(x)
+		if err != nil {
+			return nil, err
+		}
+		answer := func(d *stubDriver, op string, patch func(m []byte)) {
+			d.script = nil
+			if l, ok := ltRsp(lt, op); ok {
+				d.script = func(method string, req []byte) [][]byte {
+					m := l.message(rng, 0x17, req[4:8], "valid", nil)
+					switch op {
+					case "GetCardByID", "GetCardByIndex", "GetEvent":
+						copy(m[8:12], req[8:12])
+					case "GetTimeProfile":
+						m[8] = req[8]
+					}
+					if patch != nil {
+						patch(m)
+					}
+					return [][]byte{m}
+				}
+			}
+		}
+		same := func(seed int64, op string, serial uint32) callSpec {
+			gs := &G{r: rand.New(rand.NewSource(seed)), inDomain: inDomain}
+			return gs.call(op, serial)
+		}
+		reps := 2
+		if thorough {
+			reps = 12
+		}
+		for r := 0; r < reps; r++ {
+			cfg := stubCfgs[(r+1)%len(stubCfgs)]
+			u, d := stubClient(cfg)
+			u2, d2 := stubClient(cfg)
+			for _, op := range allOps {
+				seed := rng.Int63()
+				serial := pick(g.serial())
+				ok := func(m []byte) { m[8] = 1 } // (the boolean replies: "succeeded"; elsewhere byte 8 is a value like any other)
+				if valueAt8[op] {
+					ok = nil
+				}
+				for k, step := range []struct {
+					u  uhppote.IUHPPOTE
+					d  *stubDriver
+					op string
+				}{{u, d, op}, {u, d, op}, {u, d, allOps[rng.Intn(len(allOps))]}, {u, d, op}, {u2, d2, op}, {u, d, op}} {
+					cs := same(seed, step.op, serial)
+					if step.op != op {
+						cs = g.call(step.op, serial)
+					}
+					if k == 5 {
+						step.d.script = nil // ... and once more without an answer
+					} else {
+						answer(step.d, step.op, ok)
+					}
+					emit(doCall(step.u, step.d, cs), cs, "answered-history")
+					step.d.script = nil
+				}
+			}
+			// getter -> setter with the reported value; setter -> getter -> setter
+			for _, serial := range []uint32{405419896, 303986753, g.serial()} {
+				n := g.u32()
+				cs := g.call("GetEventIndex", serial)
+				answer(d, "GetEventIndex", func(m []byte) { m[8], m[9], m[10], m[11] = byte(n), byte(n>>8), byte(n>>16), byte(n>>24) })
+				rec := doCall(u, d, cs)
+				emit(rec, cs, "answered-history")
+				g.pin32 = &n
+				for _, x := range []struct {
+					u uhppote.IUHPPOTE
+					d *stubDriver
+				}{{u, d}, {u2, d2}, {u, d}} {
+					cs = g.call("SetEventIndex", serial)
+					answer(x.d, "SetEventIndex", func(m []byte) { m[8] = 1 })
+					emit(doCall(x.u, x.d, cs), cs, "answered-history")
+				}
+				g.pin32 = nil
+				d.script, d2.script = nil, nil
+			}
 		}
 	}
 
